@@ -4,6 +4,6 @@ CONSTANTS
   Emit = FALSE
   ServerFollowsFile = FALSE
 INVARIANTS ClientAnswersSnapshot DriverAnswers ExitStatus BlockedOnlyByServer EmitHist
-PROPERTIES OnlyCreateWrites NeverInPlace
+PROPERTIES OnlyCreateWrites NeverInPlace ExecsMonotone
 VIEW View
 CHECK_DEADLOCK FALSE
